@@ -29,13 +29,23 @@ pub fn op_name(o: &Op) -> String {
     }
 }
 
-pub const REFUSALS: [&str; 7] = ["signature-mismatch", "null-pointer", "boolean-on-non-bool", "allocation-exhausted", "mprotect-fails", "mprotect-fails-persistently", "allocation-exhausted-forced-boolean"];
+pub const REFUSALS: [&str; 8] = ["signature-mismatch", "null-pointer", "boolean-on-non-bool", "allocation-exhausted", "mprotect-fails", "mprotect-fails-persistently", "allocation-exhausted-forced-boolean", "mprotect-fails-on-second-page-of-straddling-target"];
+
+/// entry address of the function a refused installation of kind `k` names
+pub fn refusal_target(w: &World, k: u8) -> u64 {
+    match k {
+        5 => RT_ADDR + 0x40,
+        6 => w.addr[T::B1 as usize],
+        7 => RS_ADDR,
+        _ => w.addr[T::F1 as usize],
+    }
+}
 
 /// The alphabet, simplest first (so the first counterexample is also the shortest).
 pub fn alphabet_r(with_fs: bool, small: bool, refusals: bool) -> Vec<Op> {
     let mut v = alphabet(with_fs, small);
     if refusals {
-        for k in 0..7 {
+        for k in 0..8 {
             v.push(Op::Refuse(k));
         }
     }
@@ -358,6 +368,12 @@ fn refused_install(w: &World, injector: &mut InjectorPP, k: u8) {
             let b1: fn() -> bool = unsafe { std::mem::transmute::<usize, fn() -> bool>(w.addr[T::B1 as usize] as usize) };
             injector.when_called(inj::func!(b1, fn() -> bool)).will_return_boolean(true)
         }
+        7 => {
+            // the entry straddles two pages; the second one refuses to become writable
+            envx::fail_mprotect_range(Some((RS_BASE + 0x1000, RS_BASE + 0x2000)));
+            let rs: fn() -> u32 = unsafe { std::mem::transmute::<usize, fn() -> u32>(RS_ADDR as usize) };
+            injector.when_called(inj::func!(rs, fn() -> u32)).will_execute_raw(inj::func!(fk_f1_a, fn() -> u32))
+        }
         _ => {
             // the page of this target (a page of its own) refuses to become writable, now and
             // while the panic unwinds
@@ -413,7 +429,8 @@ pub fn run_history(w: &World, o: &Opts, hist: &[Op]) -> HistResult {
                     Op::Panic => panic!("user panic inside the injector's scope"),
                     Op::Refuse(k) => {
                         // the refused target is F1 (its neighbour F0 may carry a live fake)
-                        let before = w.image(T::F1);
+                        let rtarget = refusal_target(w, k);
+                        let before = unsafe { vkit::arena::read(rtarget, IMG) };
                         let r = catch_unwind(AssertUnwindSafe(|| refused_install(w, &mut injector, k)));
                         envx::fail_mmap_from(None);
                         envx::fail_mprotect_at(None);
@@ -435,7 +452,7 @@ pub fn run_history(w: &World, o: &Opts, hist: &[Op]) -> HistResult {
                                 if !ok {
                                     ctx.viol("C09", &format!("refusal-message:{}", REFUSALS[k as usize]), format!("refused installation ({}) panicked with {msg:?}, expected a signature-mismatch / null-pointer message", REFUSALS[k as usize]));
                                 }
-                                if w.image(T::F1) != before {
+                                if unsafe { vkit::arena::read(rtarget, IMG) } != before {
                                     ctx.viol("C05", &format!("refused-target-modified:{}", REFUSALS[k as usize]), format!("the refused installation ({}) changed the bytes of its target", REFUSALS[k as usize]));
                                     if k < 3 {
                                         ctx.viol(if k == 2 { "C10" } else { "C09" }, &format!("refused-target-modified:{}", REFUSALS[k as usize]), format!("the refusal ({}) was raised after the target had been modified", REFUSALS[k as usize]));
@@ -471,7 +488,7 @@ pub fn run_history(w: &World, o: &Opts, hist: &[Op]) -> HistResult {
                     ctx.viol("C05", "unexpected-panic", format!("lifetime ended with a panic the history did not ask for: {msg}"));
                 }
                 envx::fail_mprotect_range(None);
-                if refused == Some(4) || refused == Some(5) {
+                if refused == Some(4) || refused == Some(5) || refused == Some(7) {
                     // an installation that failed in mprotect abandons its trampoline: outside every
                     // given property; give the page back so that later histories start clean
                     envx::forget_owned();
